@@ -177,6 +177,14 @@ def run(tier, seed, replay):
                                     rUs["dense-C"] = qutip.sesolve(fmt(H, f), qutip.Qobj(np.ascontiguousarray(np.eye(d, dtype=complex))), tl, options=o)
                                     rUs["dense-F"] = qutip.sesolve(fmt(H, f), qutip.Qobj(qutip.data.Dense(np.asfortranarray(np.eye(d, dtype=complex)), copy=False)), tl, options=o)
                                     rUs["csr"] = qutip.sesolve(fmt(H, f), qutip.qeye(d).to("csr"), tl, options=o)
+                                # operators that are not the identity, among them ones with trace one (a projector, identity / d):
+                                # what is propagated is U(t) A0, never renormalised
+                                rAs = {}
+                                if method != "krylov":
+                                    P0 = np.zeros((d, d), dtype=complex)
+                                    P0[0, 0] = 1.0
+                                    for an, A0 in (("projector", P0), ("identity/d", np.eye(d, dtype=complex) / d), ("density-matrix", rho0.full()), ("generic", e_ops[0].full() + 0.5j * np.eye(d))):
+                                        rAs[an] = (A0, qutip.sesolve(fmt(H, f), qutip.Qobj(A0), tl, options=o))
                     except core.CaseTimeout:
                         raise
                     except Exception as e:
@@ -197,6 +205,11 @@ def run(tier, seed, replay):
                         dd = max(np.abs(s.full() - w).max() for s, w in zip(rU.states, ref_U))
                         if dd > TOL:
                             v(f"exact:sesolve-operator:{method}", f"sesolve of the identity {cfg}: differs from exp(-iHt) by {dd:.2e}", cfg)
+                        for an, (A0, ra) in rAs.items():
+                            dd = max(np.abs(s.full() - w @ A0).max() for s, w in zip(ra.states, ref_U))
+                            rep.count("operator-state/" + an)
+                            if dd > TOL:
+                                v(f"exact:sesolve-operator:{method}:{an}", f"sesolve of an operator initial state ({an}) {cfg}: differs from exp(-iHt) A0 by {dd:.2e}", cfg)
                         for uname, ru in rUs.items():
                             dd = max(np.abs(s.full() - w).max() for s, w in zip(ru.states, ref_U))
                             rep.count("operator-state/" + uname)
